@@ -981,7 +981,7 @@ int main(void) {
 # ---------------------------------------------------------------------------
 # E3w: one yylex() step from an arbitrary valid buffer state (inductive step)
 
-def e3w_harness(g, cfg, spec, bs, m, maxnul=1, witness=False, interactive_check=False):
+def e3w_harness(g, cfg, spec, bs, m, maxnul=1, witness=False, interactive_check=False, more=False):
     pre = ('static int vp_read(char *buf, int max_size);\n'
            '#define YY_INPUT(buf, result, max_size) do { (result) = vp_read((buf), (int)(max_size)); } while (0)')
     nmax = bs + m
@@ -1019,11 +1019,13 @@ void yyfree(void *p VP_ALLOC_EXTRA) { }
     H.append('#define VP_7BIT %d' % (1 if cfg.seven_bit or spec.csize == 128 else 0))
     H.append('#define VP_ARRAY %d' % (1 if is_array(g) else 0))
     H.append('#define VP_INTERACTIVE_CHECK %d' % (1 if interactive_check else 0))
+    H.append('#define VP_MORE %d' % (1 if more else 0))
     if witness:
         H.append('#define VP_WITNESS 1')
     H.append(r'''
 unsigned char vpi_buf[VP_BS], vpi_src[VP_M > 0 ? VP_M : 1], vpi_chunk[VP_M + 1];
-int vpi_n, vpi_p, vpi_status, vpi_avail, vpi_sc, vpi_bol;
+int vpi_n, vpi_p, vpi_status, vpi_avail, vpi_sc, vpi_bol, vpi_tl;
+int vp_more_req;                 /* the actions call yymore() only if this is set (never): flex emits the yymore machinery */
 static int vp_reads, vp_pos, vp_eofs;
 static struct yy_buffer_state vp_bs;
 static yybuffer vp_stack[1];
@@ -1052,10 +1054,16 @@ int main(void) {
   for (int i = 0; i < VP_M; i++) vpi_src[i] = nondet_uchar();
   for (int i = 0; i < VP_M + 1; i++) vpi_chunk[i] = nondet_uchar();
   vpi_n = nondet_int(); vpi_p = nondet_int(); vpi_status = nondet_int(); vpi_avail = nondet_int();
-  vpi_sc = nondet_int(); vpi_bol = nondet_int();
+  vpi_sc = nondet_int(); vpi_bol = nondet_int(); vpi_tl = nondet_int();
 #endif
   VP_ASSUME(vpi_n >= 0 && vpi_n <= VP_BS);
   VP_ASSUME(vpi_p >= 0 && vpi_p <= vpi_n);
+#if VP_MORE
+  /* the previous action called yymore(): its token [p-tl, p) is still in the buffer */
+  VP_ASSUME(vpi_tl >= 1 && vpi_tl <= vpi_p);
+#else
+  VP_ASSUME(vpi_tl == 0);
+#endif
   VP_ASSUME(vpi_status == YY_BUFFER_NORMAL || vpi_status == YY_BUFFER_EOF_PENDING || vpi_status == YY_BUFFER_NEW);
   VP_ASSUME(vpi_status != YY_BUFFER_NEW || vpi_n == 0);            /* a flushed buffer is empty */
   VP_ASSUME(vpi_avail >= 0 && vpi_avail <= VP_M);
@@ -1089,6 +1097,16 @@ int main(void) {
   VP_TEXTPTR = vp_mem + vpi_p;
   VP_G(yy_c_buf_p) = vp_mem + vpi_p;
   VP_G(yy_hold_char) = vp_mem[vpi_p];
+#if VP_MORE
+#if VP_ARRAY
+  for (int i = 0; i < VP_BS; i++) if (i < vpi_tl) yytext[i] = (char)vpi_buf[vpi_p - vpi_tl + i];
+  yytext[vpi_tl] = 0; yyleng = vpi_tl;
+  VP_G(yy_more_offset) = vpi_tl;                 /* what yymore() does in a %array scanner */
+#else
+  VP_TEXTPTR = vp_mem + vpi_p - vpi_tl;
+  VP_G(yy_more_flag) = 1;                        /* what yymore() does in a %pointer scanner */
+#endif
+#endif
 
   int tot = 0;
   int rr = vp_first_token(vp_stream, len, vpi_sc, vpi_bol, &tot);
@@ -1101,7 +1119,11 @@ int main(void) {
       VP_ASSERT(vp_bs.yyatbol == 1 && vp_bs.yy_buffer_status == YY_BUFFER_NEW, "after end of input the buffer is ready for a new source, at beginning of line");
     return 0;
   }
-  const char *tx = VP_TEXT; int tl = VP_LENG;
+#if VP_MORE
+  VP_ASSERT(VP_LENG >= vpi_tl, "yymore(): yyleng covers the previous text");
+  for (int i = 0; i < VP_BS; i++) if (i < vpi_tl) VP_ASSERT((unsigned char)VP_TEXT[i] == vpi_buf[vpi_p - vpi_tl + i], "yymore(): yytext begins with the previous token's text");
+#endif
+  const char *tx = VP_TEXT + vpi_tl; int tl = VP_LENG - vpi_tl;
   VP_ASSERT(tk == vp_actid[rr], "token rule independent of buffer state and read schedule");
   if (vp_has_trail(rr)) VP_ASSERT(vp_split_ok(rr, vp_stream, tl, tot), "trailing context split");
   else VP_ASSERT(tl == tot, "token length independent of buffer state and read schedule");
@@ -1160,7 +1182,8 @@ def gen_history_scanner(tree, workdir, spec, cfg, mode, extra_options=(), base='
     elif mode == 'unput':
         body = 'if (vp_visit(yy_act, yytext, yyleng)) { yyunput(vp_arg); } return yy_act;'
     elif mode == 'input':
-        body = 'if (vp_visit(yy_act, yytext, yyleng)) { vp_inp = yyinput(); vp_after_input(); } return yy_act;'
+        body = 'if (vp_visit(yy_act, yytext, yyleng)) { vp_inp = %s; vp_after_input(); } return yy_act;' % (
+            'yyinput()' if cfg.api == 'nr' else 'yyinput(yyscanner)')
     elif mode == 'more':
         body = 'if (vp_visit(yy_act, yytext, yyleng)) { yymore(); } return yy_act;'
     else:
@@ -1617,13 +1640,14 @@ int main(void) {
     return txt
 
 
-def wrap_harness(g, cfg, spec, n, witness=False):
+def wrap_harness(g, cfg, spec, n, witness=False, more=0):
     """End of input with a user yywrap(): the first source is empty; yywrap
     either reports no further input or supplies a second buffer."""
     H = [common_head(g, cfg, spec, max(n, 1)), action_table(spec), eof_table(spec)]
     H.append('#define VP_N %d' % n)
+    H.append('#define VP_MORE %d' % more)
     if witness:
-        H.append('#define VP_WITNESS 1')
+        H.append('#define VP_WITNESS %d' % more)
     H.append(r'''
 unsigned char vpi_b[VP_N > 0 ? VP_N : 1];
 int vpi_sc, vpi_more;
@@ -1635,9 +1659,13 @@ int yywrap(yyscan_t vp_scanner) {
 int yywrap(void) {
 #endif
   vp_wraps++;
-  if (vpi_more && vp_wraps == 1) {
+  if (VP_MORE == 1 && vp_wraps == 1) {
     yybuffer nb = VP_SCAN_BUFFER(vp_bufb, VP_N + 2);     /* continue with another source */
     VP_ASSERT(nb != 0, "second source");
+    return 0;
+  }
+  if (VP_MORE == 2 && vp_wraps == 1) {
+    yypop_buffer_state(VP_A0);                           /* back to the buffer pushed before (include-file idiom) */
     return 0;
   }
   return 1;
@@ -1652,7 +1680,7 @@ int main(void) {
   vpi_sc = nondet_int(); vpi_more = nondet_int();
 #endif
   VP_ASSUME(vpi_sc >= 0 && vpi_sc < VP_NSC);
-  VP_ASSUME(vpi_more == 0 || vpi_more == 1);
+  VP_ASSUME(vpi_more == VP_MORE);            /* one query per behaviour of yywrap: 0 stop, 1 new source, 2 pop */
   int nuls = 0;
   for (int i = 0; i < VP_N; i++) { if (vpi_b[i] == 0) nuls++; vp_bufb[i] = (char)vpi_b[i]; }
   VP_ASSUME(nuls <= 1);
@@ -1661,6 +1689,13 @@ int main(void) {
   VP_INIT_SCANNER();
   yybuffer a = VP_SCAN_BUFFER(vp_bufa, 2);
   VP_ASSERT(a != 0, "empty first source");
+  if (VP_MORE == 2) {
+    /* the outer buffer holds the symbolic text and has not been scanned; the empty buffer is pushed on top of it */
+    yybuffer outer = VP_SCAN_BUFFER(vp_bufb, VP_N + 2);
+    VP_ASSERT(outer != 0, "outer buffer");
+    yypush_buffer_state(a VP_A1);
+    VP_ASSERT(VP_CURBUF() == a, "pushed buffer is current");
+  }
   VP_BEGIN(vpi_sc);
   int tot = 0;
   int rr = vp_first_token(vpi_b, VP_N, vpi_sc, 1, &tot);
@@ -1668,14 +1703,15 @@ int main(void) {
   if (!vpi_more || VP_N == 0) {
     VP_ASSERT(t == vp_eofret[vpi_sc], "yywrap reports no further input: the EOF action of the current start condition runs");
     VP_ASSERT(vp_wraps == (vpi_more ? 2 : 1), "yywrap consulted once per exhausted source");
+    if (vpi_more == 2) VP_ASSERT(VP_CURBUF() != a, "popping returned to the buffer pushed before");
   } else {
     VP_ASSERT(vp_wraps == 1, "yywrap consulted exactly once");
-    VP_ASSERT(t == vp_actid[rr], "scanning continues with the new source, at beginning of line, nothing lost");
+    VP_ASSERT(t == vp_actid[rr], "scanning continues with the new source (or the buffer popped back to), at beginning of line, nothing lost");
     VP_ASSERT(vp_has_trail(rr) || VP_LENG == tot, "token length in the new source");
   }
   VP_ASSERT(VP_START() == vpi_sc, "end of input does not change the start condition");
 #ifdef VP_WITNESS
-  VP_ASSERT(!(vpi_more && VP_N > 0 && VP_LENG == VP_N), "WITNESS: token from the second source");
+  VP_ASSERT(!(vpi_more == VP_WITNESS && VP_N > 0 && VP_LENG == VP_N), "WITNESS: token from the second source");
 #endif
   return 0;
 }
